@@ -265,6 +265,16 @@ def specs(
         if pars["phi"] is None:
             pars["phi"] = draw(fl(0, 5))
     sp = dict(nodes=nodes_, links=links, origins=origins, dests=dests, pars=pars)
+    if draw(st.integers(0, 2)) == 0:
+        sp["name"] = draw(st.sampled_from(["A13 east-bound", "net.v2", "_scratch", "R\u00e9seau", "1st", "ring/1", "a__b", ""])) or None
+    if draw(st.integers(0, 3)) == 0:
+        # unrelated keyword parameters splatted into step()/to_function() (the repository's tests do the same:
+        # one dictionary with L, lanes, C, rho_max, ... for everything); they must be ignored
+        pool = {"rho_max": 180.0, "rho_crit": 33.5, "L": 1.0, "lanes": 2, "C": 2000.0, "a": 1.867, "v_free": 102.0, "alpha": 0.1, "N": 3}
+        keys = draw(st.lists(st.sampled_from(sorted(pool)), min_size=1, max_size=4, unique=True))
+        sp["extra_pars"] = {k: pool[k] for k in keys}
+    if draw(st.integers(0, 5)) == 0:
+        sp["array_params"] = True  # honoured by NumPy-only steps (spec.step_numpy)
     if names == "mixed":
         names = draw(st.sampled_from(["id", "id", "id", "drawn", "drawn", "drawn", "clash"]))
     if names == "drawn":
@@ -310,13 +320,19 @@ def states(draw, spec, zero_bias=False, negative=False, finite_only=False, allow
         k = o["kind"]
         if k == "ideal":
             continue
-        s = dict(w=[val(0, 500)], d=[draw(fl(0, 8000))])
+        def ctl(lo, hi, specials=()):
+            x = draw(fl(lo, hi, specials))
+            if negative and draw(st.integers(0, 5)) == 0:
+                x = -draw(fl(0, hi))  # inadmissible controls / disturbances too ("all inputs")
+            return x
+
+        s = dict(w=[val(0, 500)], d=[ctl(0, 8000)])
         if k == "main":
-            s["v_ctrl"] = [draw(fl(0, 200, () if finite_only else (math.inf,)))]
+            s["v_ctrl"] = [ctl(0, 200, () if finite_only else (math.inf,))]
         elif k.startswith("ramp"):
-            s["r"] = [draw(fl(0, 1, (1,)))]
+            s["r"] = [ctl(0, 1, (1,))]
         else:
-            s["q"] = [draw(fl(0, 6000, (math.inf,) if (k == "simp_lim" and not finite_only) else ()))]
+            s["q"] = [ctl(0, 6000, (math.inf,) if (k == "simp_lim" and not finite_only) else ())]
         stt[o["id"]] = s
     for d in spec["dests"]:
         if d["kind"] == "cong":
